@@ -686,11 +686,32 @@ func TestVerif_C34(t *testing.T) {
 					c.T.Fatalf("C34 harness error on the default run of %+v: %s", sh, base.harnessErr)
 				}
 				c.Note(fmt.Sprintf("datagrams %s req=%d resp=%d hdr=%d", sh.Method, sh.Req.Size+sh.Req.Delta, sh.Resp.Size+sh.Resp.Delta, sh.Hdr), fmt.Sprint(base.count))
+				// The list of deviation sites must be identical in every shard,
+				// so it is derived from the shape (an upper bound on the number
+				// of datagrams per direction: handshake and teardown, one per
+				// client Write, one per ~1000 body bytes, one ack per ~2000
+				// bytes of the opposite direction), not from the measured
+				// count, which can wobble by one under load. Sites beyond the
+				// last datagram give runs without deviation (counted, trivial).
+				reqN, respN := 0, sh.Resp.Size+sh.Resp.Delta
+				writes := 0
+				if sh.Method == "POST" {
+					reqN = sh.Req.Size + sh.Req.Delta
+					writes = 1
+					if sh.Req.Chunk > 0 {
+						writes = (reqN + sh.Req.Chunk - 1) / sh.Req.Chunk
+					}
+				}
+				bound := [2]int{
+					10 + writes + (reqN+999)/1000 + (respN+1999)/2000,
+					10 + (respN+999)/1000 + (reqN+1999)/2000 + (writes+1)/2,
+				}
 				var sites []c34Fault
 				for dir := 0; dir < 2; dir++ {
-					// one past the end, rounded up to a multiple of 4 so that all
-					// shards enumerate the same list even if a count wobbles by one
-					for i := 0; i < (base.count[dir]+4)/4*4; i++ {
+					if base.count[dir] > bound[dir] {
+						c.Cap(fmt.Sprintf("faults: the default run of %+v sent %d datagrams in direction %d, deviations are placed on the first %d only", sh, base.count[dir], dir, bound[dir]))
+					}
+					for i := 0; i < bound[dir]; i++ {
 						for _, kd := range kinds {
 							sites = append(sites, c34Fault{Dir: dir, Index: i, Kind: kd})
 						}
